@@ -238,7 +238,7 @@ impl Explorer {
 /// With the single-threaded executor and no auxiliary thread there is one
 /// simulated thread, hence a single schedule.
 pub fn is_single_schedule(case: &Case) -> bool {
-    case.cfg.threads <= 1 && case.aux.is_empty() && !case.cfg.timeout_set
+    case.cfg.threads <= 1 && case.aux.is_empty() && !case.cfg.timeout_set && case.comp.is_none()
 }
 
 impl engine::WorkSource for Explorer {
